@@ -30,6 +30,8 @@ CHECKS = {
          "narrow by nature: most of the property is input-quantified; the simulator contributes the clock clause and async cross-talk"),
  "C16": ("exploration", "3/C16", "Operation histories up to length 8/12 over Refresh(valid A/B), Refresh(invalid early/late incl. start failures on the simulated disk), Destroy, log via tag, raw write via handle, register tag, obtain handle; after every operation the system runs to quiescence and is compared with a lifecycle state machine (panic-freedom, no blocking, routing to configured sinks or the built-in console, second Refresh rejected, Destroy idempotent, no descriptor left open).",
          "outcomes the statement leaves open between a failed Refresh and the next Destroy are not judged"),
+ "C15": ("exploration", "3/C15", "Configuration resolution checked through behaviour of the simulated start-up: a probe plugin with one attribute of every supported kind is configured well-typed / omitted / via ${prop} (present or absent) / ill-typed or out of range, in camel/kebab/snake spelling, flat or inline; Refresh must fail exactly when the statement says and otherwise publish configured-or-default values; every registered logger and appender type is instantiated, used and destroyed on the simulated disk; random mutations of a valid configuration must never panic and whatever Refresh accepts must log and Destroy cleanly; start-up under injected open failures must be an error with no descriptor left. Every Refresh-based case of the other properties additionally renders its intent in a random spelling.",
+         "narrow by nature (resolution is a function of the map); the simulator contributes start-up I/O, fault injection, async start/stop and map-order permutation"),
 }
 NA = [
  ("C07", "pure function Event -> bytes; no schedule, clock, fault or shared state for a simulator to own (buffer recycling, its only stateful neighbour, is C03)"),
@@ -39,7 +41,7 @@ NA = [
  ("C17", "pure function string -> (map, error) (ANTLR parser); no concurrency, time or I/O"),
  ("C18", "pure predicate on a string plus a get-or-create map insert during single-threaded initialisation"),
 ]
-PENDING = {"C15": "check under construction (configuration resolution through simulated start-up); not claimed yet"}  # properties whose checks are still under construction: listed as not claimed yet
+PENDING = {}  # properties whose checks are still under construction: listed as not claimed yet
 m = {
  "version": 1,
  "setup_cmd": "./check setup",
